@@ -359,9 +359,20 @@ def corr_broadcast(ctx, res, ncases, use_model=True):
             add('bc.mic %s %s' % (_enc_arg(T), _enc_arg(g)), impl, desc)
             res.case(('mic', k), impl.startswith('ok O'))
         else:   # bic: gExtra handling of BinaryThermodynamics.getInterfacialComposition, pycalphad stubbed
-            T = _rand_arg(rng, ('s', 's', 'v')); g = _rand_arg(rng, ('s', 'v', 'v', 'v'))
-            if T[0] == 'v' and len(T[1]) > 1 and rng.random() < 0.5:
-                T = ('v', [T[1][0]] * len(T[1]))            # one common temperature given as an array
+            T = _rand_arg(rng, ('s', 's', 'v', 'v')); g = _rand_arg(rng, ('s', 'v', 'v', 'v'))
+            if T[0] == 'v' and len(T[1]) > 1:
+                # temperature patterns: all equal / first = last != middle / two equal / all different
+                m = len(T[1]); a, b = 600.0 + 100 * rng.random(), 750.0 + 100 * rng.random()
+                pat = rng.choice(['all-equal', 'all-equal', 'ends-equal', 'ends-equal', 'two-equal', 'random'])
+                if pat == 'all-equal':
+                    T = ('v', [a] * m)
+                elif pat == 'ends-equal':
+                    T = ('v', [a] + [b] * (m - 2) + [a]) if m >= 3 else ('v', [a, b])
+                elif pat == 'two-equal':
+                    tl = [a] * 2 + [b + i for i in range(m - 2)]; rng.shuffle(tl); T = ('v', tl)
+                res.count('bc:bic-T-' + pat)
+                if g[0] == 'v' and len(g[1]) not in (1, m) and rng.random() < 0.8:
+                    g = ('v', [rng.uniform(0, 500) for _ in range(m)])
             if (g[0] == 'v' and len(g[1]) == 0) or (T[0] == 'v' and len(T[1]) == 0):
                 g = ('v', [0.0, 100.0]); T = ('s', 700.0)
             as_list = rng.random() < 0.25
@@ -402,6 +413,15 @@ def corr_broadcast(ctx, res, ncases, use_model=True):
                 if not (_same(ga, g0) and _same(Ta, T0)):
                     res.violate('binary-ic-modifies-gExtra', 'BinaryThermodynamics.getInterfacialComposition changed the gExtra array passed to it (in-place += gOffset)',
                                 desc, np.asarray(ga).tolist(), np.asarray(g0).tolist())
+                # direct oracle of the batching clause: whichever path is taken, the (T, GE) points handed to pycalphad are
+                # the broadcast pairs, each at its OWN temperature
+                Tb, gb = np.atleast_1d(T0), np.atleast_1d(g0)
+                n_ = max(len(Tb), len(gb))
+                want = [(float(Tb[i if len(Tb) > 1 else 0]), float(gb[i if len(gb) > 1 else 0]) + 1.0) for i in range(n_)]
+                got = [(c[0], z) for c in impl_calls for z in c[1]]
+                if got != want:
+                    res.violate('binary-ic-point-evaluated-at-other-temperature',
+                                'getInterfacialComposition evaluated the (T, GE) points %s, the broadcast pairs are %s' % (got[:6], want[:6]), desc, got, want)
                 if second != impl_calls:
                     res.violate('binary-ic-repeat-differs', 'a repeated getInterfacialComposition call with the same array asked pycalphad for different GE values',
                                 desc, second, impl_calls)
@@ -495,6 +515,11 @@ def mk_therm(kind, method='tangent', dens=None):
         th = BinaryThermodynamics(ALZR_TDB, ['AL', 'ZR'], ['FCC_A1', 'AL3ZR'], drivingForceMethod=method)
         th.setDFSamplingDensity(dens or 2000); th.setEQSamplingDensity(500)
         th.setDiffusivity(lambda T: 0.0768 * np.exp(-242000 / (8.314 * T)), 'FCC_A1')
+    elif kind == 'N':     # binary Ni-Al from the Ni-Cr-Al database: ordered precipitate FCC_L12 in FCC_A1
+        from kawin.tests.datasets import NICRAL_TDB
+        from kawin.thermo import BinaryThermodynamics
+        th = BinaryThermodynamics(NICRAL_TDB, ['NI', 'AL'], ['FCC_A1', 'FCC_L12'], drivingForceMethod=method)
+        th.setDFSamplingDensity(dens or 2000); th.setEQSamplingDensity(500)
     elif kind == 'A':     # Al-Mg-Si: five precipitate phases (kawin/tests/test_precipitation.py)
         from kawin.tests.datasets import ALMGSI_DB
         from kawin.thermo import MulticomponentThermodynamics
@@ -513,7 +538,7 @@ def mk_therm(kind, method='tangent', dens=None):
     return th
 
 
-OBJ_NAME = {'B': 'Al-Zr binary', 'M': 'Ni-Al-Cr ternary', 'A': 'Al-Mg-Si ternary (5 precipitate phases)', 'F': 'Fe-Cr-Ni (FCC_A1 + BCC_A2, both with mobilities)'}
+OBJ_NAME = {'N': 'Ni-Al binary (ordered FCC_L12, NICRAL database)', 'B': 'Al-Zr binary', 'M': 'Ni-Al-Cr ternary', 'A': 'Al-Mg-Si ternary (5 precipitate phases)', 'F': 'Fe-Cr-Ni (FCC_A1 + BCC_A2, both with mobilities)'}
 
 
 def wrap_singles(th, marks, inst):
@@ -572,7 +597,24 @@ A_P = ['MGSI_B_P', 'MG5SI6_B_DP', 'B_PRIME_L', 'U1_PHASE', 'U2_PHASE']
 F_X = [[0.25, 0.05], [0.3, 0.1], [0.2, 0.08], [0.28, 0.03]]
 F_T = [1273.15, 1373.15, 1173.15, 1323.15]
 F_P = ['FCC_A1', 'BCC_A2']
-POOLS = {'B': (B_X, B_T), 'M': (M_X2, M_T), 'A': (A_X, A_T), 'F': (F_X, F_T)}
+N_X = [0.16, 0.18, 0.14, 0.2, 0.15, 0.17]
+N_XU = [0.12, 0.05, 0.1, 0.13]
+N_T = [1073.15, 1173.15, 973.15]
+POOLS = {'B': (B_X, B_T), 'M': (M_X2, M_T), 'A': (A_X, A_T), 'F': (F_X, F_T), 'N': (N_X, N_T)}
+XUNDER = {'B': [2e-5, 5e-5], 'M': [[0.05, 0.05], [0.01, 0.01], [0.03, 0.08], [0.06, 0.06]], 'N': N_XU, 'A': [], 'F': []}
+
+
+def t_pattern(rng, Ts, m):
+    """a temperature array of length m: all equal / first = last != middle / two equal / free choice"""
+    a = rng.choice(Ts); b = rng.choice([t for t in Ts if t != a])
+    pat = rng.choice(['all-equal', 'ends-equal', 'ends-equal', 'two-equal', 'random'])
+    if pat == 'all-equal':
+        return [a] * m
+    if pat == 'ends-equal' and m >= 3:
+        return [a] + [b] * (m - 2) + [a]
+    if pat == 'two-equal':
+        tl = [a, a] + [rng.choice(Ts) for _ in range(m - 2)]; rng.shuffle(tl); return tl
+    return [rng.choice(Ts) for _ in range(m)]
 
 
 def gen_queries(rng, kind, n):
@@ -599,16 +641,16 @@ def gen_queries(rng, kind, n):
             if name in ('interdiff', 'tracer'):
                 ph = rng.choice(F_P + [None]) if kind == 'F' else None
                 if arr:
-                    m = rng.randint(2, 3)
-                    qs.append(dict(name=name, x=[rng.choice(Xs) for _ in range(m)], T=[rng.choice(Ts) for _ in range(m)], rm=rm, arr=True, ph=ph))
+                    m = rng.randint(2, 4)
+                    qs.append(dict(name=name, x=[rng.choice(Xs) for _ in range(m)], T=t_pattern(rng, Ts, m), rm=rm, arr=True, ph=ph))
                 else:
                     qs.append(dict(name=name, x=curX, T=curT, rm=rm, arr=False, ph=ph))
             else:
                 pp = rng.choice(A_P + [None]) if kind == 'A' else None
                 if name == 'df':
                     if arr:
-                        m = rng.randint(2, 3)
-                        qs.append(dict(name='df', x=[rng.choice(Xs) for _ in range(m)], T=[rng.choice(Ts) for _ in range(m)], rm=rm, arr=True, pp=pp))
+                        m = rng.randint(2, 4)
+                        qs.append(dict(name='df', x=[rng.choice(Xs) for _ in range(m)], T=t_pattern(rng, Ts, m), rm=rm, arr=True, pp=pp))
                     else:
                         qs.append(dict(name='df', x=curX, T=curT, rm=rm, arr=False, pp=pp))
                 elif name == 'ic':
@@ -623,6 +665,7 @@ def gen_queries(rng, kind, n):
             if rng.random() < 0.04:
                 qs.append(dict(name='clear'))
         return qs
+    XU = XUNDER[kind]           # undersaturated (single-phase) compositions, used by the driving-force queries
     curT = rng.choice(Ts); curX = rng.choice(Xs)
     for _ in range(n):
         r = rng.random()
@@ -635,22 +678,28 @@ def gen_queries(rng, kind, n):
             if rng.random() < 0.5:
                 curX = rng.choice(Xs)
         rm = rng.random() < 0.3
-        names = ['df', 'df', 'df', 'interdiff', 'tracer', 'ic'] if kind == 'B' else \
+        names = ['df', 'df', 'df', 'interdiff', 'tracer', 'ic'] if kind in ('B', 'N') else \
                 ['df', 'df', 'df', 'interdiff', 'tracer', 'ic', 'curv', 'curv', 'growth', 'curv1']
         name = rng.choice(names)
         arr = rng.random() < 0.25
         if name in ('df', 'interdiff', 'tracer'):
             if arr:
-                m = rng.randint(2, 3)
-                xs = [rng.choice(Xs) for _ in range(m)]
-                Tq = [rng.choice(Ts) for _ in range(m)] if rng.random() < 0.6 else curT
+                m = rng.randint(2, 4)
+                xs = [rng.choice(Xs + XU) if name == 'df' else rng.choice(Xs) for _ in range(m)]
+                Tq = t_pattern(rng, Ts, m) if rng.random() < 0.7 else curT
                 qs.append(dict(name=name, x=xs, T=Tq, rm=rm, arr=True))
             else:
-                qs.append(dict(name=name, x=curX, T=curT, rm=rm, arr=False))
+                xq = rng.choice(XU) if (name == 'df' and XU and rng.random() < 0.3) else curX
+                qs.append(dict(name=name, x=xq, T=curT, rm=rm, arr=False))
         elif name == 'ic':
             g = [0.0, rng.choice([100.0, 250.0, 500.0])] if arr else rng.choice([0.0, 150.0, 400.0])
-            if kind == 'B':
-                Tq = [curT, rng.choice(Ts)] if (arr and rng.random() < 0.5) else curT
+            if kind in ('B', 'N'):
+                if arr and rng.random() < 0.7:
+                    m = rng.randint(2, 4)
+                    Tq = t_pattern(rng, Ts, m)
+                    g = [rng.choice([0.0, 100.0, 250.0, 500.0]) for _ in range(m)] if rng.random() < 0.6 else rng.choice([0.0, 5000.0 if kind == 'B' else 300.0])
+                else:
+                    Tq = curT
                 qs.append(dict(name='ic', T=Tq, g=g, arr=arr))
             else:
                 qs.append(dict(name='ic', x=curX, T=curT, g=g, arr=arr))
@@ -793,8 +842,10 @@ def single_points(q):
         Ts = q['T'] if isinstance(q['T'], list) else [q['T']] * len(q['x'])
         return [dict(q, x=x, T=T, arr=False) for x, T in zip(q['x'], Ts)]
     if n == 'ic' and q['arr']:
-        gs = q['g']
-        Ts = q['T'] if isinstance(q['T'], list) else [q['T']] * len(gs)
+        gs, Ts = q['g'], q['T']
+        m = len(gs) if isinstance(gs, list) else len(Ts)
+        gs = gs if isinstance(gs, list) else [gs] * m
+        Ts = Ts if isinstance(Ts, list) else [Ts] * m
         return [dict(q, g=g, T=T, arr=False) for g, T in zip(gs, Ts)]
     return [q]
 
@@ -937,7 +988,7 @@ def run_sequence(ctx, res, kind, method, qs, inst, use_model, seq_id, progress=N
                 res.violate('cached-sets-of-other-phase-reused:%s' % n,
                             '%s: local equilibrium on phases %s was started from cached composition sets of %s' % (n, list(e[1]), e[7]), desc, e[7], list(e[1]))
         # ---------------- C. trace: events per single point
-        if n == 'ic' and kind == 'B':
+        if n == 'ic' and kind in ('B', 'N'):
             continue      # stateless, own pycalphad workspace: nothing to replay
         for (mname, a, k, i0, i1, r) in mk:
             ev = events[i0:i1]
@@ -1125,7 +1176,8 @@ def rng_switch(ctx):
 def corr_thermo(ctx, res, use_model=True):
     inst = Instr()
     try:
-        plan = [('B', 'tangent', ctx.n(30, 60)), ('M', 'tangent', ctx.n(30, 60)), ('F', 'tangent', ctx.n(25, 60)), ('A', 'tangent', ctx.n(25, 60))]
+        plan = [('B', 'tangent', ctx.n(30, 60)), ('M', 'tangent', ctx.n(30, 60)), ('F', 'tangent', ctx.n(25, 60)), ('A', 'tangent', ctx.n(25, 60)),
+                ('N', 'tangent', ctx.n(15, 40))]
         extra = [('B', 'approximate', ctx.n(6, 30)), ('M', 'approximate', ctx.n(6, 30)), ('B', 'sampling', ctx.n(4, 20)),
                  ('M', 'curvature', ctx.n(4, 20)), ('M', 'sampling', ctx.n(0, 20)), ('B', 'curvature', ctx.n(0, 20)),
                  ('A', 'approximate', ctx.n(6, 30)), ('A', 'sampling', ctx.n(4, 20))]
@@ -1145,7 +1197,12 @@ def corr_thermo(ctx, res, use_model=True):
                       dict(name='df', x=B_X[0], T=B_T[0], rm=False, arr=False), dict(name='df', x=B_X[0], T=B_T[3], rm=False, arr=False),
                       dict(name='df', x=[B_X[0], B_X[1]], T=[B_T[0], B_T[2]], rm=False, arr=True), dict(name='df', x=B_X[0], T=B_T[0], rm=True, arr=False),
                       dict(name='interdiff', x=B_X[0], T=B_T[0], rm=False, arr=False), dict(name='tracer', x=B_X[2], T=B_T[1], rm=False, arr=False),
-                      dict(name='interdiff', x=[B_X[0], B_X[3]], T=B_T[0], rm=True, arr=True), dict(name='ic', T=[B_T[0], B_T[1]], g=[0.0, 250.0], arr=True)]
+                      dict(name='interdiff', x=[B_X[0], B_X[3]], T=B_T[0], rm=True, arr=True), dict(name='ic', T=[B_T[0], B_T[1]], g=[0.0, 250.0], arr=True),
+                      dict(name='ic', T=[B_T[1], B_T[0], B_T[1]], g=5000.0, arr=True), dict(name='ic', T=[B_T[1], B_T[1], B_T[1]], g=[0.0, 100.0, 5000.0], arr=True),
+                      dict(name='ic', T=[B_T[0], B_T[1], B_T[1], B_T[0]], g=[0.0, 100.0, 100.0, 500.0], arr=True),
+                      dict(name='df', x=[B_X[0], B_X[0], B_X[0]], T=[B_T[1], B_T[0], B_T[1]], rm=False, arr=True),
+                      dict(name='interdiff', x=[B_X[0], B_X[1], B_X[0]], T=[B_T[0], B_T[3], B_T[0]], rm=False, arr=True),
+                      dict(name='tracer', x=[B_X[0], B_X[1], B_X[0]], T=[B_T[0], B_T[0], B_T[3]], rm=False, arr=True)]
         scripted_switch = [dict(name='df', x=x2, T=T0, rm=False, arr=False), dict(name='method', m='approximate'),
                            dict(name='df', x=x2, T=T0, rm=False, arr=False), dict(name='df', x=x2, T=T0, rm=False, arr=False),
                            dict(name='method', m='tangent'), dict(name='df', x=x2, T=T0, rm=False, arr=False),
@@ -1160,6 +1217,18 @@ def corr_thermo(ctx, res, use_model=True):
         scripted_SM = [dict(name='df', x=x2, T=T0, rm=False, arr=False), dict(name='df', x=x2, T=M_T[3], rm=False, arr=False),
                        dict(name='df', x=M_X2[1], T=M_T[3], rm=False, arr=False)]
         seq_guarded(ctx, res, 'B', 'sampling', scripted_SB, inst, use_model, 's4'); sid += 1
+        # ordered precipitate (FCC_L12): undersaturated -> supersaturated -> undersaturated -> supersaturated on ONE object, every method
+        xu, xs1, xs2 = [0.05, 0.05], M_X2[1], M_X2[3]
+        for mth in ['tangent', 'approximate', 'sampling', 'curvature']:
+            us = [dict(name='df', x=xu, T=M_T[1], rm=False, arr=False), dict(name='df', x=xs1, T=M_T[1], rm=False, arr=False),
+                  dict(name='df', x=xs2, T=M_T[1], rm=False, arr=False), dict(name='df', x=[0.01, 0.01], T=M_T[1], rm=False, arr=False),
+                  dict(name='df', x=xs1, T=M_T[1], rm=False, arr=False), dict(name='df', x=[xu, xs1, xs2, xu], T=[M_T[1], M_T[0], M_T[1], M_T[1]], rm=False, arr=True)]
+            seq_guarded(ctx, res, 'M', mth, us, inst, use_model, 'u' + mth); sid += 1
+            un = [dict(name='df', x=0.05, T=N_T[0], rm=False, arr=False), dict(name='df', x=0.16, T=N_T[0], rm=False, arr=False),
+                  dict(name='df', x=0.12, T=N_T[0], rm=False, arr=False), dict(name='df', x=0.16, T=N_T[0], rm=False, arr=False),
+                  dict(name='df', x=0.18, T=N_T[0], rm=False, arr=False), dict(name='df', x=0.05, T=N_T[0], rm=False, arr=False),
+                  dict(name='df', x=0.18, T=N_T[0], rm=False, arr=False)]
+            seq_guarded(ctx, res, 'N', mth, un, inst, use_model, 'n' + mth); sid += 1
         seq_guarded(ctx, res, 'M', 'sampling', scripted_SM, inst, use_model, 's5'); sid += 1
         seq_guarded(ctx, res, 'M', 'tangent', scripted_switch, inst, use_model, 's0'); sid += 1
         seq_guarded(ctx, res, 'M', 'tangent', scripted_M, inst, use_model, 's1'); sid += 1
